@@ -9,7 +9,8 @@
   (B) per op family: once the modelled `validate` accepted, every block a task addresses exists (and, for the
       region store, has the shape the write expects).  Where the unchanged code falsifies this the full
       statement is kept as a `def … : Prop`, with `…_partial` under an explicit hypothesis and `…_fails` from a
-      concrete witness (scan, stack, repeat, region store, map_blocks, legacy pairwise fusion).
+      concrete witness (scan, stack, repeat, map_blocks, legacy pairwise fusion; the region store was repaired by `fix:`
+      commits and is proved for the repaired code, the old witnesses are kept as theorems about the old variant).
   (C) the assertion conditions that follow from validated inputs.
 -/
 import CubedModel.Proofs.Validate
@@ -162,20 +163,57 @@ theorem C17_stack_total_fails : ¬ C17_stack_total := by
 
 example : stackKeyOk [⟨[4], [2]⟩, ⟨[4], [2]⟩] 0 [1, 1] = true := by decide
 
-/-- region store, full statement: an accepted region write reads, for every target block it visits, an existing
-source block of exactly the shape the write expects. -/
-def C17_region_total : Prop :=
-  ∀ p : RegionP, 0 < p.tgtChunk → 0 < p.srcChunk → validateRegion p = .ok () →
-    ∀ bi ∈ regionOutBlocks p, regionTaskOk p bi = true
-
-/-- … addressing holds for a unit-step region when source and target have the same chunk size. -/
-theorem C17_region_total_partial (p : RegionP) (s : Nat) (hs : p.start = some s) (hst : s ≤ p.tgtLen)
-    (hc : 0 < p.tgtChunk) (hchunk : p.srcChunk = p.tgtChunk) (hstep : p.stp = 1)
+/-- region store (the code after the `fix:` commits d416aac / ba97b91): whatever `validateRegion` accepts — unit
+steps, bounds normalised by `slice.indices`, start aligned, region of the source's length — makes every task read an
+existing block of the source (rechunked to the target chunk size) of exactly the shape the write expects. -/
+theorem C17_accepted_total_region (p : RegionP) (hc : 0 < p.tgtChunk)
+    (hreg : (p.start.isNone && p.stop.isNone && p.step.isNone) = false)
     (hv : validateRegion p = .ok ()) (hL : 0 < p.srcLen) (bi : Nat)
+    (hlo : p.nlo / p.tgtChunk ≤ bi) (hhi : bi ≤ (p.nhi - 1) / p.tgtChunk) :
+    regionTaskOk p bi = true := by
+  simp only [validateRegion, hreg, Bool.false_eq_true, if_false] at hv
+  split at hv
+  · cases hv
+  · split at hv
+    · cases hv
+    · rename_i hal
+      split at hv
+      · cases hv
+      · rename_i hlen
+        have hmod : p.nlo % p.tgtChunk = 0 := by
+          by_cases hm : p.nlo % p.tgtChunk = 0
+          · exact hm
+          · exfalso; apply hal; simp [hm]
+        have hL' : p.srcLen = p.nhi - p.nlo := by
+          by_cases h : p.srcLen = p.nhi - p.nlo
+          · exact h
+          · exact absurd h (by simpa using hlen)
+        exact region_task_ok p hc hmod hL' hL bi hlo hhi
+
+example : validateRegion ⟨4, 2, 12, 4, some 4, some 8, none⟩ = .ok () ∧
+    regionOutBlocksN ⟨4, 2, 12, 4, some 4, some 8, none⟩ = [1] ∧
+    regionTaskOk ⟨4, 2, 12, 4, some 4, some 8, none⟩ 1 = true := by decide
+
+/-- the repaired whole-array branch refuses a source of another shape, the region branch a stepped region. -/
+theorem C17_store_refusals :
+    validateRegion ⟨17, 2, 16, 2, none, none, none⟩ = .error .ValueError ∧
+    validateRegion ⟨4, 4, 12, 4, some 4, some 12, some 2⟩ = .error .ValueError ∧
+    validateRegion ⟨4, 4, 12, 4, some 3, some 7, none⟩ = .error .ValueError := by decide
+
+/-- OLD variant (before the fixes), full statement: an accepted region write reads, for every target block it
+visits, an existing source block of exactly the shape the write expects. -/
+def C17_region_total_old : Prop :=
+  ∀ p : RegionP, 0 < p.tgtChunk → 0 < p.srcChunk → validateRegionOld p = .ok () →
+    ∀ bi ∈ regionOutBlocks p, regionTaskOkOld p bi = true
+
+/-- OLD variant: addressing held for a unit-step region when source and target had the same chunk size. -/
+theorem C17_region_total_old_partial (p : RegionP) (s : Nat) (hs : p.start = some s) (hst : s ≤ p.tgtLen)
+    (hc : 0 < p.tgtChunk) (hchunk : p.srcChunk = p.tgtChunk) (hstep : p.stp = 1)
+    (hv : validateRegionOld p = .ok ()) (hL : 0 < p.srcLen) (bi : Nat)
     (hlo : p.lo / p.tgtChunk ≤ bi) (hhi : bi ≤ (p.hi - 1) / p.tgtChunk) :
     0 ≤ regionKey p bi ∧ (regionKey p bi).toNat < nblocks p.srcLen p.srcChunk := by
   have hne : (p.start.isNone && p.stop.isNone && p.step.isNone) = false := by simp [hs]
-  simp only [validateRegion, hne, Bool.false_eq_true, if_false] at hv
+  simp only [validateRegionOld, hne, Bool.false_eq_true, if_false] at hv
   split at hv
   · cases hv
   · rename_i hal
@@ -187,7 +225,7 @@ theorem C17_region_total_partial (p : RegionP) (s : Nat) (hs : p.start = some s)
       have hmod : s % p.tgtChunk = 0 := by
         by_cases hm : s % p.tgtChunk = 0
         · exact hm
-        · exfalso; apply hal; simp [regionAligned, hs, hm]
+        · exfalso; apply hal; simp [regionAlignedOld, hs, hm]
       have hL' : p.srcLen = p.hi - s := by
         have : p.srcLen = p.selLen := by
           by_cases h : p.srcLen = p.selLen
@@ -206,24 +244,26 @@ theorem C17_region_total_partial (p : RegionP) (s : Nat) (hs : p.start = some s)
       have : s + p.srcLen - 1 = p.hi - 1 := by omega
       rw [this]; exact hhi
 
-example : validateRegion ⟨4, 4, 12, 4, some 4, some 8, none⟩ = .ok () ∧
+example : validateRegionOld ⟨4, 4, 12, 4, some 4, some 8, none⟩ = .ok () ∧
     regionOutBlocks ⟨4, 4, 12, 4, some 4, some 8, none⟩ = [1] ∧
-    regionTaskOk ⟨4, 4, 12, 4, some 4, some 8, none⟩ 1 = true := by decide
+    regionTaskOkOld ⟨4, 4, 12, 4, some 4, some 8, none⟩ 1 = true := by decide
 
-/-- … and fails in general: a source in chunks of 2 written to the aligned region `[4, 8)` of a target in chunks
-of 4 is accepted, and the task for target block 1 reads a 2-element block where 4 elements are expected. -/
-theorem C17_region_total_fails : ¬ C17_region_total := by
+/-- OLD variant failed in general: a source in chunks of 2 written to the aligned region `[4, 8)` of a target in
+chunks of 4 was accepted, and the task for target block 1 read a 2-element block where 4 elements were expected. -/
+theorem C17_region_total_old_fails : ¬ C17_region_total_old := by
   intro h
   have := h ⟨4, 2, 12, 4, some 4, some 8, none⟩ (by decide) (by decide) (by decide) 1 (by decide)
   revert this
   decide
 
-/-- a larger source chunk, or a stepped region, makes the task address a source block that does not exist. -/
-theorem C17_region_addressing_fails :
-    validateRegion ⟨8, 8, 12, 4, some 4, some 12, none⟩ = .ok () ∧
-    regionTaskOk ⟨8, 8, 12, 4, some 4, some 12, none⟩ 2 = false ∧
-    validateRegion ⟨4, 4, 12, 4, some 4, some 12, some 2⟩ = .ok () ∧
-    regionTaskOk ⟨4, 4, 12, 4, some 4, some 12, some 2⟩ 2 = false := by decide
+/-- OLD variant: a larger source chunk, or a stepped region, made the task address a source block that did not
+exist; a whole-array store of another shape was accepted. -/
+theorem C17_region_addressing_old_fails :
+    validateRegionOld ⟨8, 8, 12, 4, some 4, some 12, none⟩ = .ok () ∧
+    regionTaskOkOld ⟨8, 8, 12, 4, some 4, some 12, none⟩ 2 = false ∧
+    validateRegionOld ⟨4, 4, 12, 4, some 4, some 12, some 2⟩ = .ok () ∧
+    regionTaskOkOld ⟨4, 4, 12, 4, some 4, some 12, some 2⟩ 2 = false ∧
+    validateRegionOld ⟨17, 2, 16, 2, none, none, none⟩ = .ok () := by decide
 
 /-- scan, full statement: building a cumulative op never trips the bare assertion. -/
 def C17_scan_total : Prop :=
